@@ -2,7 +2,7 @@
 import ast
 from sa.index import AnalysisError
 from sa.paths import call_name
-from rules.common import guard_dnf, txt, module_regex, regex_skeleton, format_skeleton, paths_of, loc, tests_on
+from rules.common import string_values, guard_dnf, txt, module_regex, regex_skeleton, format_skeleton, paths_of, loc, tests_on
 
 SPEC = {
     'explanation': (
@@ -30,6 +30,12 @@ MANIFEST = {
              'use). One necessary clause family of C16; the parser state machine and live-frame agreement are not decided.'),
     'note': 'Trusted: re._parser, string.Formatter.',
 }
+
+
+def root_is(e, name):
+    while isinstance(e, (ast.Attribute, ast.Call, ast.Subscript)):
+        e = e.func if isinstance(e, ast.Call) else e.value
+    return isinstance(e, ast.Name) and e.id == name
 
 
 def _atom_accepts(item, ch):
@@ -147,8 +153,8 @@ def run(ctx):
     ctx.ob('T12.keys', ts.fq, 'every frame key to_string reads is produced by from_string', consumed <= produced, loc=ts.loc,
            detail='reads %s, produced %s' % (sorted(consumed), sorted(produced)))
     # header literal
-    heads_w = [n.value for n in ast.walk(ts.node) if isinstance(n, ast.Constant) and isinstance(n.value, str) and n.value.startswith('Traceback')]
-    heads_r = [n.value for n in ast.walk(fs.node) if isinstance(n, ast.Constant) and isinstance(n.value, str) and n.value.startswith('Traceback')]
+    heads_w = [v for v, n in string_values(ts, [f for f in scope if f is not ts]) if v.startswith('Traceback')]
+    heads_r = [v for v, n in string_values(fs) if v.startswith('Traceback')]
     ctx.ob('T12.header', ts.fq, 'header literal written == header literal recognised', bool(heads_w) and set(heads_w) == set(heads_r),
            loc=ts.loc, detail='%s vs %s' % (heads_w, heads_r))
     # exception line separator
@@ -235,16 +241,37 @@ def run(ctx):
                    detail='one way to reach the discard tests only: ' + ' and '.join(txt(a) for a, t in conj))
     if n_disc == 0:
         ctx.info('T7.discard: no prefix/suffix-guarded line discard in from_string (nothing to check)')
+    # limit=None means "the interpreter's default"; limit=0 is a valid request for no frames (as in the traceback module)
+    from rules.common import check_none_default, check_identity_only
+    for nm in ('from_traceback', 'from_frame'):
+        check_none_default(ctx, prog.func('tbutils.TracebackInfo.' + nm), 'limit', rule='T19c')
+    # an exception instance may be falsy (defines __len__/__bool__): only `is None` decides whether there is a value
+    ffl = prog.module('tbutils').functions.get('_format_final_exc_line')
+    if ffl is not None and len(ffl.params) >= 2:
+        check_identity_only(ctx, ffl, ffl.params[1], 'T19.value', 'a falsy exception instance still has a message to print')
+    # the text is only left-trimmed before it is split: trailing blanks belong to the exception message
+    tb_param = fs.params[1] if len(fs.params) > 1 else 'tb_str'
+    trims = [n for n in ast.walk(fs.node) if isinstance(n, ast.Call) and isinstance(n.func, ast.Attribute) and
+             n.func.attr in ('strip', 'rstrip') and not n.args and root_is(n.func.value, tb_param)]
+    ctx.ob('T9.trim', fs.fq, 'the traceback text is never right-trimmed as a whole (trailing blanks are part of the message)', not trims,
+           loc=loc(fs, trims[0]) if trims else fs.loc, detail=txt(trims[0]) if trims else '')
     # sibling constructors give the deferred line the frame's module globals (needed for loader-backed sources)
+    cci = prog.cls('tbutils.Callpoint')
     for name, gl in (('from_tb', 'f_globals'), ('from_frame', 'f_globals')):
         cf = prog.func('tbutils.Callpoint.' + name)
-        dl = [n for n in ast.walk(cf.node) if isinstance(n, ast.Call) and call_name(n) == '_DeferredLine']
-        if not dl:
+        w2, paths2 = paths_of(prog, cf, recv=cci)
+        seen_dl = 0
+        for p2 in paths2:
+            for o in p2.ops:
+                if o.kind == 'call' and call_name(o.val) == '_DeferredLine':
+                    seen_dl += 1
+                    argv = list(o.val.args) + [k.value for k in o.val.keywords]
+                    exp = [txt(w2.expand(a)) for a in argv]
+                    ok = len(argv) >= 3 and any(gl in e for e in exp[2:])
+                    ctx.ob('T25.globals', cf.fq, 'the source line is looked up with the frame\'s module globals (as its sibling '
+                           'constructor and the traceback module do)', ok, loc=loc(cf, o.node), detail='_DeferredLine(%s)' % ', '.join(exp))
+        if not seen_dl:
             ctx.unknown('T25.globals', cf.fq, 'no _DeferredLine(...) construction found', cf.loc)
-            continue
-        ok = all(len(n.args) + len(n.keywords) >= 3 and gl in ast.unparse(n) for n in dl)
-        ctx.ob('T25.globals', cf.fq, 'the source line is looked up with the frame\'s module globals (as its sibling constructor and the '
-               'traceback module do)', ok, loc=loc(cf, dl[0]), detail=txt(dl[0]))
     # the frame patterns accept any path / function text and digits for the line number
     import re._parser as sre_parse
     import re._constants as sre_c
